@@ -56,7 +56,9 @@ def page_text(title, depth, extra_meta=""):
     up = "../" * depth
     t = f"title: {title}\n" if title else ""
     return (f"{t}{extra_meta}\nText of {title or 'untitled'}. [top]({up}index.html) [ptop](|page|/index.html) [utop](|url|/index.html) "
-            f"![pic](|media|/pic.png) [[mod1]] [[mod1:v]] [frag](|page|/index.html#text) [rfrag]({up}index.html#text)\n")
+            f"![pic](|media|/pic.png) [[mod1]] [[mod1:v]] [frag](|page|/index.html#text) [rfrag]({up}index.html#text)\n"
+            # aliases on indented lines: a nested list item and the continuation paragraph of a list item
+            f"\n- outer item\n    - nested [nptop](|page|/index.html) and [nutop](|url|/index.html)\n\n    continued ![npic](|media|/pic.png)\n")
 
 
 def materialise(tree, ordered, copy_mode):
@@ -89,6 +91,11 @@ def materialise(tree, ordered, copy_mode):
             meta += "".join(f"copy_subdir: {d}\n" for d in ndirs)
         elif copy_mode == "empty-override" and not is_root:
             meta += "copy_subdir: \n"
+        elif copy_mode == "project+rootpage" and is_root:
+            # the top index.md has its own list (which replaces the project-wide `a_n` for this page only);
+            # sub-directories without a setting of their own still get the project-wide one
+            copy_here = [d for d in ndirs if d != "a_n"] or ["zz_nothing_here"]
+            meta += "".join(f"copy_subdir: {d}\n" for d in copy_here)
         title = "T" + (rel.replace("/", "_") or "root")
         files[f"pages/{rel}index.md"] = page_text(title, depth, meta)
         # effective order
@@ -113,7 +120,7 @@ def materialise(tree, ordered, copy_mode):
                 # directory without index.md: holds a file and a page that must be ignored (or copied verbatim)
                 files[f"pages/{rel}{s}/data.txt"] = "data"
                 files[f"pages/{rel}{s}/ignored.md"] = "title: Ignored\n\nignored\n"
-                if s in copy_here or (copy_mode == "project" and s == "a_n"):
+                if s in copy_here or (copy_mode == "project" and s == "a_n") or (copy_mode == "project+rootpage" and s == "a_n" and not is_root):
                     exp["copied_dirs"].append(f"{rel}{s}")
             elif k == "F":
                 files[f"pages/{rel}{s}.txt"] = "attachment"
@@ -148,7 +155,7 @@ def nav_order(project_tree):
 def run_case(st: Stats, tree, ordered, copy_mode):
     files, exp = materialise(tree, ordered, copy_mode)
     opts = dict(page_dir="pages", media_dir="media")
-    if copy_mode == "project":
+    if copy_mode in ("project", "project+rootpage"):
         opts["copy_subdir"] = ["a_n"]
     r = fordrun.build(files, opts, stage="write", proj_body="front\n")
     st.evaluations += 1
@@ -188,6 +195,12 @@ def run_case(st: Stats, tree, ordered, copy_mode):
             if f"page/{d}/data.txt" not in site.files:
                 bad += 1
                 st.violation("copy_subdir-not-copied", stratum, feats, inp, sorted(x for x in site.files if x.startswith("page/")), f"page/{d}/data.txt")
+                break
+        for x in sorted(site.files):
+            m_ = re.match(r"page/(.*)/data\.txt$", x)
+            if m_ and m_.group(1) not in exp["copied_dirs"]:
+                bad += 1
+                st.violation("directory-copied-without-being-listed", stratum, feats, inp, x, f"only {exp['copied_dirs']} are copied")
                 break
         leaked = [x for x in site.files if x.startswith("page/") and (x.endswith("~") or "/." in x or x.endswith(".md"))
                   and not any(x.startswith(f"page/{d}/") for d in exp["copied_dirs"])]
@@ -272,7 +285,7 @@ def gen_cases(tier):
                 for o in ("reversed", "partial"):
                     yield (t, o, "absent")
             if "N" in ks:
-                for c in ("page", "project", "empty-override"):
+                for c in ("page", "project", "empty-override", "project+rootpage"):
                     yield (t, "absent", c)
     for n in (0, 1, 2):
         for t in trees(n, 2):
